@@ -33,7 +33,7 @@ ASSUMPTIONS = [
 BOUNDS = {"quick": "refinement: <= 3 hits from a 30-hit menu, all iteration orders, both modes; filters: <= 3 hits, all permutations",
           "thorough": "refinement: <= 5 hits from the full 30-hit menu, 6 hits from a 15-hit sub-menu (5 and 6 hits: rotations + reversal of the set order)"}
 REQUIRED_BUCKETS = {t: ["refine:schedules", "refine:merged-output", "refine:dropped-input", "refine:equal-start-tie",
-                        "overlap:dropped", "filter:dropped"] for t in ("quick", "thorough")}
+                        "overlap:dropped", "filter:dropped", "filter:chains"] for t in ("quick", "thorough")}
 LENS = {"A": 40, "B": 100, "regulatorR": 40}
 N_CHUNKS = 32
 
@@ -203,7 +203,7 @@ def check_remove_overlapping(hits, limit=10):
 
 # ---------------------------------------------------------------- detection filters
 
-def check_filters(hits):
+def check_filters(hits, bound=2):
     """filter_results (equivalence group {A,B}) then filter_result_multiple, all permutations"""
     outs = {}
     for perm in itertools.permutations(hits):
@@ -221,7 +221,7 @@ def check_filters(hits):
             results, by_id = cluster_prediction.filter_result_multiple(results, by_id)
             return tuple(sorted((h.query_id, h.hit_start, h.hit_end, int(h.bitscore)) for h in by_id["gene"]))
         try:
-            for schedule, _, outcome in explore(run, setorder.SCHED, bound=2):
+            for schedule, _, outcome in explore(run, setorder.SCHED, bound=bound):
                 outs.setdefault(outcome, (perm, schedule))
         except Exception as err:  # pylint: disable=broad-except
             return [("filter-raised", f"{type(err).__name__}: {str(err)[:120]}")], False
@@ -280,6 +280,8 @@ def shards(tier):
     for chunk in range(8):
         out.append(["overlap", chunk])
         out.append(["filter", chunk])
+    for chunk in range(N_CHUNKS):
+        out.append(["filter-chain", chunk, tier])
     return out
 
 
@@ -317,6 +319,32 @@ def run_shard(shard):
                     for clause, detail in fails:
                         res.fail(case, clause, detail)
                     res.sample(case)
+    elif shard[0] == "filter-chain":
+        # chains of 4-5 hits of two equivalent profiles in which only consecutive hits overlap by more than 20 positions: the
+        # overlap group is their transitive closure however the hits are listed
+        _, chunk, tier = shard
+        spans = [(0, 50), (25, 75), (50, 100), (75, 125), (100, 150)]
+        index = 0
+        for length in (4, 5):
+            for profiles in itertools.product("AB", repeat=length):
+                if len(set(profiles)) < 2:
+                    continue
+                for scores in itertools.product((1, 2), repeat=length):
+                    index += 1
+                    if index % N_CHUNKS != chunk:
+                        continue
+                    hits = [(profiles[i], spans[i][0], spans[i][1], scores[i]) for i in range(length)]
+                    res.evals += 1
+                    res.nontrivial += 1
+                    # every listing order of the hits (thorough: also every single deviation of set iteration order)
+                    fails, dropped = check_filters(hits, bound=0 if tier == "quick" else 1)
+                    res.buckets["filter:chains"] += 1
+                    res.outcomes[("filter-chain", length, tuple(sorted({c for c, _ in fails})))] += 1
+                    if fails or res.evals % 503 == 1:
+                        case = {"kind": "filter", "hits": [list(h) for h in hits]}
+                        for clause, detail in fails:
+                            res.fail(case, clause, detail)
+                        res.sample(case)
     else:
         kind, chunk = shard
         items = [h for h in menu("quick", 3) if h[0] != "regulatorR"]
